@@ -304,6 +304,12 @@ fn write_entry(
     if let Some(texture_data) = &entry.texture_data {
         let texture_metadata = entry.texture_metadata.as_ref().expect("always Some if texture_data is");
         texture_offset = w.pos()? - entry_pos;
+        // (width, height and format are 16-bit fields of the THTX header)
+        for (name, value) in [("img_width", texture_metadata.width), ("img_height", texture_metadata.height), ("img_format", texture_metadata.format)] {
+            if value > u16::MAX as u32 {
+                return Err(emitter.emit(error!("{name} {value} does not fit in the texture header (max {})", u16::MAX)));
+            }
+        }
         write_texture(w, texture_data, texture_metadata)?;
     };
 
